@@ -31,7 +31,10 @@ TITLE = "log routing follows the logs section; reloads leave only the new sectio
 SPEC = os.path.join(os.path.dirname(os.path.dirname(os.path.abspath(__file__))), "spec")
 SEVS = ["debug", "command", "info", "warning", "error", "fatal"]
 LINE_RE = re.compile(rb"\[\d\d:\d\d:\d\d \d\d/\d\d/\d{4}\] \(([^:()\s]+):([^:()\s]+)\) (.*)")
-PROBE_RE = re.compile(rb"probe (\d+)")
+PROBE_RE = re.compile(rb"probe (\d+)( x*)?")
+# every 7th probe is a long record: its text is padded so that the record ends just below / at / beyond the 1 KiB
+# message buffer of log_vmessage() ("every line written is complete": a record that loses its newline swallows the next)
+LONG_LENS = (900, 960, 985, 1000, 1015, 1023, 1024, 1100)
 POISON = "file:poison.log"
 
 # ------------------------------------------------------------------------------------------------
@@ -120,7 +123,8 @@ def run_history(args):
             pid += 1
             emitted[pid] = (i, fac, sev)
             row.append(pid)
-            script.append("emit %s %d %d" % (fac, sev - 1, pid))
+            script.append("emit %s %d %d" % (fac, sev - 1, pid) if pid % 7 != 3 else
+                          "emit %s %d %d %d" % (fac, sev - 1, pid, LONG_LENS[(pid // 7) % len(LONG_LENS)]))
         grids.append(row)
     script.append("quit")
     env = dict(os.environ)
